@@ -97,7 +97,8 @@ func (k Keeper) DistributeReward(ctx context.Context) error {
 			return err
 		}
 
-		power := math.LegacyNewDec(voteInfo.Validator.Power).Quo(math.LegacyNewDec(totalPower))
+		// the share ratio is rounded down, otherwise the sum of the ratios can exceed 1 and the pool is overdrawn
+		power := math.LegacyNewDec(voteInfo.Validator.Power).QuoTruncate(math.LegacyNewDec(totalPower))
 		if !pool.Gas.IsZero() {
 			share := math.LegacyNewDecFromBigInt(pool.Gas.BigInt()).MulTruncate(power).TruncateInt()
 			if !share.IsZero() {
